@@ -105,9 +105,56 @@ class Conv:
         return r
 
 
+class SympyTimeout(Exception):
+    pass
+
+
+class time_limit:
+    """wall-clock limit for a block of sympy work (simplification of an expression with Abs/sign/Piecewise
+    can take minutes): the obligation is then undecided, not the run stuck"""
+
+    def __init__(self, seconds):
+        self.seconds = seconds
+
+    def __enter__(self):
+        import signal
+        import time
+        if time_limit.spent > SYMPY_BUDGET:
+            raise SympyTimeout("symbolic simplification budget of this run (%d s) exhausted" % SYMPY_BUDGET)
+        self.t0 = time.time()
+
+        def handler(signum, frame):
+            raise SympyTimeout("symbolic simplification exceeded %d s" % self.seconds)
+        self.old = signal.signal(signal.SIGALRM, handler)
+        signal.setitimer(signal.ITIMER_REAL, self.seconds)
+
+    def __exit__(self, *a):
+        import signal
+        import time
+        time_limit.spent += time.time() - self.t0
+        signal.setitimer(signal.ITIMER_REAL, 0)
+        signal.signal(signal.SIGALRM, self.old)
+        return False
+
+
+SYMPY_SECONDS = 30
+SYMPY_BUDGET = 150      # per check run; the pinned tree needs < 10 s in total
+time_limit.spent = 0.0
+
+
 def is_zero_expr(e):
     if e == 0:
         return True
+    try:
+        with time_limit(SYMPY_SECONDS):
+            return _is_zero_expr(e)
+    except SympyTimeout:
+        raise
+    except Exception:
+        return False
+
+
+def _is_zero_expr(e):
     try:
         e2 = sp.simplify(e)
         if e2 == 0:
@@ -117,6 +164,8 @@ def is_zero_expr(e):
             return True
         e4 = sp.radsimp(sp.together(e3))
         return sp.simplify(e4) == 0
+    except SympyTimeout:
+        raise
     except Exception:
         return False
 
@@ -126,7 +175,8 @@ def identical(pairs, machine=None, positive=None):
     for lab, a, b in pairs:
         ea, eb = cv.conv(a), cv.conv(b)
         if not is_zero_expr(ea - eb):
-            return False, (lab, {}, sp.simplify(ea), sp.simplify(eb))
+            with time_limit(SYMPY_SECONDS):
+                return False, (lab, {}, sp.simplify(ea), sp.simplify(eb))
     return True, None
 
 
